@@ -5,20 +5,44 @@ Import ListNotations.
 Theorem server_admits_only_authenticated s c p :
   server_build s = Built c -> sh_skip s = false -> server_admits c p = true -> good_client_peer p = true.
 Proof.
-  destruct s as [cert ca name skip], p as [pr ch ti us nm]; unfold server_build, enabled; cbn.
+  destruct s as [cert ca name skip], p as [pr ch ho ti us nm]; unfold server_build, enabled; cbn.
   intros Hb Hs. subst skip.
   destruct cert, name, ca; cbn in Hb; try discriminate; inversion Hb; subst c; cbn;
     destruct pr, ch, ti, us; cbn; intros H; try discriminate; reflexivity.
 Qed.
 
-Theorem client_admits_only_authenticated s c p :
-  client_build s = Built c -> sh_skip s = false -> client_admits c p = true -> good_server_peer p = true /\ sh_ca s = true.
+Theorem client_admits_only_authenticated_for s c p :
+  client_build s = Built c -> sh_skip s = false -> client_admits c p = true -> good_server_peer_for s p = true.
 Proof.
-  destruct s as [cert ca name skip], p as [pr ch ti us nm]; unfold client_build, enabled; cbn.
+  destruct s as [cert ca name skip], p as [pr ch ho ti us nm]; unfold client_build, enabled, good_server_peer_for; cbn.
   intros Hb Hs. subst skip.
   destruct cert, name, ca; cbn in Hb; try discriminate; inversion Hb; subst c; cbn;
-    destruct pr, ch, ti, us, nm; cbn; intros H; try discriminate; split; reflexivity.
+    destruct pr, ch, ho, ti, us, nm; cbn; intros H; try discriminate; reflexivity.
 Qed.
+
+(* with a CA file configured the anchor is that CA alone: what the host's trust store says about the server is irrelevant *)
+Theorem client_admits_only_authenticated s c p :
+  client_build s = Built c -> sh_skip s = false -> sh_ca s = true -> client_admits c p = true -> good_server_peer p = true.
+Proof.
+  intros Hb Hs Hca Ha. pose proof (client_admits_only_authenticated_for s c p Hb Hs Ha) as H.
+  unfold good_server_peer_for in H. rewrite Hca in H. exact H.
+Qed.
+
+Theorem configured_ca_excludes_host_store s c p :
+  client_build s = Built c -> sh_skip s = false -> sh_ca s = true -> p_chain p = false -> client_admits c p = false.
+Proof.
+  intros Hb Hs Hca Hch. destruct (client_admits c p) eqn:Ha; [|reflexivity].
+  pose proof (client_admits_only_authenticated s c p Hb Hs Hca Ha) as H. unfold good_server_peer in H.
+  rewrite Hch in H. destruct (p_presents p); discriminate.
+Qed.
+
+(* without a CA file the client falls back to the host's trust store: a server chaining to it (and only such a server) is admitted *)
+Example no_ca_file_means_host_store :
+  let s := {| sh_cert := false; sh_ca := false; sh_name := true; sh_skip := false |} in
+  exists c, client_build s = Built c
+    /\ client_admits c {| p_presents := true; p_chain := false; p_host := true; p_time := true; p_usage := true; p_name := true |} = true
+    /\ client_admits c {| p_presents := true; p_chain := true; p_host := false; p_time := true; p_usage := true; p_name := true |} = false.
+Proof. eexists. repeat split. Qed.
 
 (* Explicitly disabling verification is the only way a peer that is not properly authenticated gets in. *)
 Theorem only_skip_relaxes_server s c p :
@@ -29,10 +53,10 @@ Proof.
 Qed.
 
 Theorem only_skip_relaxes_client s c p :
-  client_build s = Built c -> client_admits c p = true -> good_server_peer p = false -> sh_skip s = true.
+  client_build s = Built c -> client_admits c p = true -> good_server_peer_for s p = false -> sh_skip s = true.
 Proof.
   intros Hb Ha Hg. destruct (sh_skip s) eqn:E; [reflexivity|].
-  destruct (client_admits_only_authenticated s c p Hb E Ha) as [H _]. rewrite H in Hg. discriminate.
+  rewrite (client_admits_only_authenticated_for s c p Hb E Ha) in Hg. discriminate.
 Qed.
 
 (* a verifying server cannot be built without a CA; a verifying client needs the name *)
@@ -46,14 +70,14 @@ Qed.
 Example verifying_shape_works :
   let s := {| sh_cert := true; sh_ca := true; sh_name := true; sh_skip := false |} in
   exists c, server_build s = Built c
-    /\ server_admits c {| p_presents := true; p_chain := true; p_time := true; p_usage := true; p_name := true |} = true
-    /\ server_admits c {| p_presents := true; p_chain := false; p_time := true; p_usage := true; p_name := true |} = false
-    /\ server_admits c {| p_presents := true; p_chain := true; p_time := false; p_usage := true; p_name := true |} = false
-    /\ server_admits c {| p_presents := false; p_chain := false; p_time := false; p_usage := false; p_name := false |} = false.
+    /\ server_admits c {| p_presents := true; p_chain := true; p_host := false; p_time := true; p_usage := true; p_name := true |} = true
+    /\ server_admits c {| p_presents := true; p_chain := false; p_host := false; p_time := true; p_usage := true; p_name := true |} = false
+    /\ server_admits c {| p_presents := true; p_chain := true; p_host := false; p_time := false; p_usage := true; p_name := true |} = false
+    /\ server_admits c {| p_presents := false; p_chain := false; p_host := false; p_time := false; p_usage := false; p_name := false |} = false.
 Proof. eexists. repeat split. Qed.
 
 (* the code before the "fix:" commit for F9 used RequireAnyClientCert: a self-signed client got in *)
 Example require_any_admits_self_signed :
   server_admits {| sc_auth := RequireAnyClientCert; sc_cas := true; sc_has_cert := true; sc_custom_time := false; sc_hooks_reject := false |}
-                {| p_presents := true; p_chain := false; p_time := true; p_usage := true; p_name := false |} = true.
+                {| p_presents := true; p_chain := false; p_host := false; p_time := true; p_usage := true; p_name := false |} = true.
 Proof. reflexivity. Qed.
